@@ -571,8 +571,23 @@ def run_chain_case(ctx):
     TRACE["sweeps"].clear()
     env.reseed_global(rng)
     tag = f"{method}|{algo}"
+    def _optimize(*a, **k):
+        # `algo="arpack"` is listed in the OptimizeConfig documentation but the branch is `assert False`: give that
+        # mechanism its own signature (it is recorded as an open finding) so that any OTHER assertion of the iterative
+        # solver is still reported under the generic crash signature
+        try:
+            return gs.optimize_mps(*a, **k)
+        except AssertionError as e:
+            import traceback as _tb
+            last = _tb.extract_tb(e.__traceback__)[-1]
+            if algo == "arpack" and last.name == "eigh_iterative" and "assert False" in (last.line or ""):
+                from rv.case import CaseAbort
+                ctx.violate("optimize_mps|algo=arpack|documented-option-not-implemented", message="assert False in eigh_iterative")
+                raise CaseAbort() from e
+            raise
+
     try:
-        energies, res = ctx.lib(gs.optimize_mps, start, mpo_run, omega=omega, what="optimize_mps",
+        energies, res = ctx.lib(_optimize, start, mpo_run, omega=omega, what="optimize_mps",
                                 refusals=("primme", "algo"))
     finally:
         calls = list(TRACE["calls"])
@@ -901,11 +916,15 @@ def run_kernel_case(ctx):
         # vectors at the end of every cycle, through the documented callback hook
         mon = {"gram": 0.0}
 
-        def callback(envs, mon=mon):
-            xs = np.array([np.asarray(v) for v in envs["xs"]])
+        def gram_of(xs_list, mon=mon):
+            xs = np.array([np.asarray(v) for v in xs_list])
             if len(xs):
                 g = xs.conj() @ xs.T
                 mon["gram"] = max(mon["gram"], float(np.abs(g - np.eye(len(g))).max()))
+
+        def callback(envs, mon=mon):
+            mon["xs"] = envs["xs"]       # the list object itself: the final cycle appends to it without calling back
+            gram_of(envs["xs"])
 
         def guarded():
             try:
@@ -918,6 +937,8 @@ def run_kernel_case(ctx):
                     e_, x_ = [e_], [x_]
                 return None, e_, x_
             except Exception as exc:  # noqa: BLE001 - attributed below when the subspace had lost orthonormality
+                if mon.get("xs") is not None:
+                    gram_of(mon["xs"])
                 if mon["gram"] > 1e-9:
                     return exc
                 raise
@@ -925,6 +946,8 @@ def run_kernel_case(ctx):
         env.reseed_global(rng)
         out = ctx.lib(guarded, what=d["entry"])
         ctx.count("davidson_kernel_runs")
+        if mon.get("xs") is not None:
+            gram_of(mon["xs"])
         ctx.metric_max("kernel-max-gram-error", mon["gram"])
         fails = []
 
